@@ -50,18 +50,18 @@ func main() {
 	per := budget / 4
 	for si, sc := range fixedScenarios() {
 		n := 0
-		for off := 0; n < per/len(fixedScenarios())+1 && off < 60; off += 3 {
+		for off := 0; n < per/len(fixedScenarios())+1 && off < 60 && !tooAbnormal(); off += 3 {
 			n += explore(sc, int(seed)+si+off, off, 3, 27, emit)
 		}
 	}
 	// 2. seeded random scenarios under seeded random schedules
-	for k := 0; k < budget/2; k++ {
+	for k := 0; k < budget/2 && !tooAbnormal(); k++ {
 		sc := randomScenario(rng, k)
 		emit(runSchedule(sc, func(n int) int { return rng.Intn(n) }))
 	}
 	// 3. fixed scenarios under random schedules
 	fs := fixedScenarios()
-	for k := 0; k < budget/4; k++ {
+	for k := 0; k < budget/4 && !tooAbnormal(); k++ {
 		emit(runSchedule(fs[k%len(fs)], func(n int) int { return rng.Intn(n) }))
 	}
 	if mode == "c14" {
@@ -70,7 +70,7 @@ func main() {
 		if nt > 120 {
 			nt = 120
 		}
-		for k := 0; k < nt; k++ {
+		for k := 0; k < nt && !tooAbnormal(); k++ {
 			emit(runSchedule(tickScenario(), func(n int) int { return rng.Intn(n) }))
 		}
 		rounds := 2
